@@ -371,8 +371,14 @@ func C15(c *core.Ctx) {
 					}
 				}
 			case *ssa.BinOp:
+				// i < wnd[k], written either way round
 				if x.Op == token.LSS {
 					if k, ok := slot(x.Y); ok {
+						uses["free-loop bound"] = k
+					}
+				}
+				if x.Op == token.GTR {
+					if k, ok := slot(x.X); ok {
 						uses["free-loop bound"] = k
 					}
 				}
